@@ -468,11 +468,13 @@ auto with_cats2(line_t const &L, A &_a, B &_b, F const &_f)
 // the families (one translation unit each): return true and set _out when the operation is theirs
 #define C05_FAMILY(name) bool name(std::string const &_op, line_t const &L, bool _mo, std::string &_out)
 C05_FAMILY(family_alg);
+C05_FAMILY(family_alg2);
 C05_FAMILY(family_opt);
 C05_FAMILY(family_eith);
 C05_FAMILY(family_tup);
 C05_FAMILY(family_rec);
 C05_FAMILY(family_grid);
+C05_FAMILY(family_tree);
 C05_FAMILY(family_opts);
 C05_FAMILY(family_parse);
 
